@@ -23,6 +23,7 @@ RULE = ("sequences of length 1, 9, 10, 11, 49, 50, 51, 99, 100, 101 and random u
 RULE += ("; added after the mutation rounds: histories of 25-45 updates; the caller editing its dictionary after acceptance; empty mappings; updates through a second handle on the same backend object; the first cases of every shard are judged again at its end")
 EXHAUSTIVE = {"quick": False, "thorough": False}
 ASSUMPTIONS = [
+    "warning filters that escalate warnings to errors, and palette values that are str subclasses with their own __str__ (e.g. str-mixin Enum members), are not driven",
     "documented default palette: D,E red; K,R blue; P fuchsia; F,W,Y orange; G,H,N,Q,S,T green; A,C,I,L,M,V black",
     "colour names differing only in letter case are not driven (documentation and code disagree; statement silent)",
     "a dict with all 20 keys plus extra foreign keys is driven only when it is otherwise valid, and then only the "
